@@ -170,6 +170,11 @@ package disk
 //@   ensures[C04,C05] overwritequeued: (ok && old(has(c.cache, strkey(key)))) ==> evN >= old(evN) + 1
 //@   loop 0 invariant queued: evN >= old(evN) && (old(has(c.cache, strkey(key))) ==> evN >= old(evN) + 1)
 //@   ensures[C05] oversize: r4k(value.sizeOnDisk) > c.maxSize ==> !ok
+//@   ensures[C01,C05] present: ok ==> (seqlen(c.ll.seq) > 0 && member(c.ll.seq, seqfront(c.ll.seq)) && #entry.key[seqfront(c.ll.seq)] == key &&
+//@       entSod(seqfront(c.ll.seq)) == value.sizeOnDisk && entSize(seqfront(c.ll.seq)) == value.size)
+//@   loop 0 invariant[C01,C05] fits: c.reservedSize + r4k(value.sizeOnDisk) <= c.maxSize
+//@   loop 0 invariant[C01,C05] newest: seqlen(c.ll.seq) > 0 && #entry.key[seqfront(c.ll.seq)] == key &&
+//@       entSod(seqfront(c.ll.seq)) == value.sizeOnDisk && entSize(seqfront(c.ll.seq)) == value.size
 //@   ensures frame: c.reservedSize == old(c.reservedSize) && c.maxSize == old(c.maxSize)
 //@   loop 0 invariant index: lruIndex(c)
 //@   loop 0 invariant cur: c.currentSize == c.reservedSize + sum4k(c.ll.seq, #lruItem.sizeOnDisk) - sizeDelta
